@@ -428,7 +428,10 @@ func (c *client) handleErrorMessage(runtimeMessage DecodedRuntimeMessage) bool {
 	return false
 }
 
-func (c *client) hasEntriesRemaining() bool {
+// stopReadLoopIfIdle checks whether any step is still waiting for its result. If none is, it marks the read
+// loop as stopped and returns true. The check and the update happen under a single hold of the mutex, so that an
+// Execute call which registers its entry afterwards is guaranteed to see that it must start a new read loop.
+func (c *client) stopReadLoopIfIdle() bool {
 	c.mutex.Lock()
 	defer c.mutex.Unlock()
 	for _, resultEntry := range c.runningStepResultEntries {
@@ -436,17 +439,23 @@ func (c *client) hasEntriesRemaining() bool {
 		// Context: There is a fraction of time when the entry is still in the map
 		// following completion. It is set to a non-nil value when done.
 		if resultEntry.result == nil {
-			return true
+			return false
 		}
 	}
-	return false
+	c.readLoopRunning = false
+	return true
 }
 
 func (c *client) executeReadLoop(cborReader *cbor.Decoder) {
+	// Set when the loop has already marked itself as stopped (see stopReadLoopIfIdle). A new read loop may have
+	// been started since, so the flag must not be touched again in that case.
+	stoppedWhenIdle := false
 	defer func() {
 		c.mutex.Lock()
 		defer c.mutex.Unlock()
-		c.readLoopRunning = false
+		if !stoppedWhenIdle {
+			c.readLoopRunning = false
+		}
 		c.wg.Done()
 	}()
 	// Loop and get all messages
@@ -480,7 +489,8 @@ func (c *client) executeReadLoop(cborReader *cbor.Decoder) {
 			)
 		}
 		// The non-error exit condition is having no more entries remaining.
-		if !c.hasEntriesRemaining() {
+		if c.stopReadLoopIfIdle() {
+			stoppedWhenIdle = true
 			return
 		}
 	}
